@@ -234,7 +234,10 @@ def bf(ctx, b):
     ok_ = carried_keys(li)
     cdat = T.sub(T.app('column', data, col), T.app('mean', T.app('column', data, col)))
     t = S('k#t')
-    val = T.div(T.app('sum', mk_comp(T.sub(n, lag), t, T.mul(index_term(cdat, t), index_term(cdat, T.add(t, lag))))), n)
+    def lagged(count):
+        return T.div(T.app('sum', mk_comp(T.sub(count, lag), t, T.mul(index_term(cdat, t), index_term(cdat, T.add(t, lag))))), n)
+    val = lagged(n)
+    val_alts = [lagged(T.app('len', cdat)), lagged(T.app('len', T.app('column', data, col)))]      # the series length is n (a column of an (n, d) array)
     # all n lags: `0..n`, or one per entry of the output column (the output is zeros((n, d)) and element updates keep its shape)
     outk = [k for k in carried_keys(lo)]
     lag_counts = [n] + ([T.app('len', index_term(lo.lh[outk[0]], T.app('axis', AX(1), col)))] if len(outk) == 1 and lo.init[outk[0]] is T.app('zeros', T.tup(n, dcols)) else [])
@@ -243,8 +246,9 @@ def bf(ctx, b):
     if len(ok_) != 1:
         return
     k = ok_[0]
-    exp = T.app('upd', li.lh[k], T.app('axis', AX(1), col), T.app('upd', index_term(li.lh[k], T.app('axis', AX(1), col)), lag, val))
-    ctx.eq('C12.bf.value', A, 'value', li.next[k], exp, sp=li.sp, why='out[lag, col] = (1/n) sum_{t < n-lag} c_t c_{t+lag}, c the mean-centred column (centre, sum, normalise by the chain length)')
+    mkexp = lambda v_: T.app('upd', li.lh[k], T.app('axis', AX(1), col), T.app('upd', index_term(li.lh[k], T.app('axis', AX(1), col)), lag, v_))
+    exp = mkexp(val)
+    ctx.eq('C12.bf.value', A, 'value', li.next[k], exp, alts=[mkexp(v_) for v_ in val_alts], sp=li.sp, why='out[lag, col] = (1/n) sum_{t < n-lag} c_t c_{t+lag}, c the mean-centred column (centre, sum, normalise by the chain length)')
     ctx.eq('C12.bf.ret', A, 'return', ev.ret_term, lo.lx[outk[0]] if len(outk) == 1 else T.UNIT, sp=sp, why='returns the filled array')
 
 
@@ -290,9 +294,8 @@ def fft(ctx, b):
     t = S('k#t')
     zero = T.app('adt:rustfft::num_complex::Complex', T.app('f:re', T.ZERO), T.app('f:im', T.ZERO))
     ntraj = T.app('len', traj)
-    padlen = T.app('len', T.app('slice_repeat', T.app('array', zero), T.sub(NP, n)))
-    elem = T.ite(T.cmp('lt', t, ntraj), T.app('adt:rustfft::num_complex::Complex', T.app('f:re', T.sub(index_term(traj, t), mean)), T.app('f:im', T.ZERO)),
-                 index_term(T.app('slice_repeat', T.app('array', zero), T.sub(NP, n)), T.sub(t, ntraj)))
+    padlen = T.sub(NP, n)           # ([zero].repeat(k) and iter::repeat(zero).take(k) are both k copies of zero)
+    elem = T.ite(T.cmp('lt', t, ntraj), T.app('adt:rustfft::num_complex::Complex', T.app('f:re', T.sub(index_term(traj, t), mean)), T.app('f:im', T.ZERO)), zero)
     ctx.eq('C12.fft.centre', A, 'input', x0, mk_comp(T.add(ntraj, padlen), t, elem), sp=sp, why='mean-centred series followed by n_padded - n zeros')
     sq = [ls for ls in ev.vf.loops if ls.kind == 'for' and ls.ctx == (cl.uid,)]
     oksq = False
